@@ -459,7 +459,7 @@ func runC02(c *Ctx) {
 		}
 		c.OwnerRule("R02.6", "call(OneTimeSigner.Sign)", c.Uses([]*types.Func{sign}, ScanOpts{SkipGenerated: true, OnlyPkgs: only, SkipPkgs: []string{"test/...", "tools/...", "cmd/..."}}), map[string]string{
 			"agreement.makeVote":          "the vote signer",
-			"heartbeat.Service.loop":      "heartbeat proof, not a vote (thorough tier)",
+			"heartbeat.Service.prepareHeartbeat": "heartbeat proof, not a vote (thorough tier)",
 			"node.AlgorandFullNode.MakePrioResponse": "network priority challenge, not a vote (thorough tier)",
 		})
 		c.OwnerRule("R02.6", "call(makeVote)", c.Uses([]*types.Func{mk}, ScanOpts{SkipGenerated: true}), map[string]string{
